@@ -175,7 +175,7 @@ PairClauses(ln) ==
        IF ln.dd /\ ln.exc = ""
        \* operator-operator route: the value on the coarse snap, the double-precision accuracy separately
        THEN << <<"FidelityValue", ln.gc /\ ln.vc * f[2] = f[1] * Pow4(n)>>,
-               <<"FidelityAccuracy", ln.grid /\ ln.v * f[2] = f[1] * Pow4(n)>> >>
+               <<"NOTE:FidelityAccuracy", ln.grid /\ ln.v * f[2] = f[1] * Pow4(n)>> >>
        ELSE ValueClauses("FidelityValue", ln, ln.v * f[2] = f[1] * Pow4(n))
   ELSE IF ln.m = "trace_distance"
   THEN IF IsPure(S, n) /\ IsPure(T, n)
@@ -224,6 +224,8 @@ RelNames == {"TextbookValue", "KetEqualsProjector", "DenseEqualsSparse", "Shortc
 RelClauses(ln) ==
   IF ln.cl \notin RelNames THEN << <<"MalformedRecord", FALSE>> >>
   ELSE IF ln.exc # "" /\ Sparse(ln) THEN << <<"NOTE:SparseRejected", FALSE>> >>
+  ELSE IF ln.cl = "FidelityAccuracy"       \* double-precision accuracy of the operator-operator route: a note
+       THEN << <<"Returns", ln.exc = "">>, <<"NOTE:FidelityAccuracy", ln.exc # "" \/ ln.dq = 0>> >>
   ELSE << <<"Returns", ln.exc = "">>, <<ln.cl, ln.exc # "" \/ ln.dq = 0>> >>
 
 \* bounds, on values quantised to 1e-6 with a slack of Eps
